@@ -142,7 +142,7 @@ func genC14(t *rapid.T, tier string) interface{} {
 				if rapid.IntRange(0, 3).Draw(t, "del") == 0 {
 					w.Del = true
 				} else {
-					w.V = genValHex(t, "v", false)
+					w.V = genValHex(t, "v", true)
 				}
 				s.Writes = append(s.Writes, w)
 			}
@@ -424,7 +424,11 @@ func execC14(prog interface{}, c *Case) *Violation {
 			// metamorphic: another value / another key must not verify
 			if present {
 				bad := append([]byte{}, want...)
-				bad[0] ^= 0x01
+				if len(bad) == 0 {
+					bad = []byte{0x01}
+				} else {
+					bad[0] ^= 0x01
+				}
 				if err := prt.VerifyValue(resp.Proof, hist.hashes[h], kp.String(), bad); err == nil {
 					return violf("C14/proof-accepts-wrong-value", "%s: proof verifies for a different value", desc)
 				}
